@@ -349,7 +349,8 @@ R.contract(
     # refused exactly when the announced size (plus the AEAD tag) does not fit the datagram budget, or - for frames that
     # count as in flight - the congestion budget
     raises={"QuicPacketBuilderStop": "rb < capacity or (in_flight_frame(frame_type) and rf < capacity)"},
-    on_raise={"QuicPacketBuilderStop": ["self._buffer.g_pos == old(self._buffer.g_pos)", "pkt.is_ack_eliciting == old(pkt.is_ack_eliciting) and pkt.in_flight == old(pkt.in_flight)"]},
+    on_raise={"QuicPacketBuilderStop": ["self._buffer.g_pos == old(self._buffer.g_pos)", "pkt.is_ack_eliciting == old(pkt.is_ack_eliciting) and pkt.in_flight == old(pkt.in_flight)",
+                                        "len(pkt.delivery_handlers) == old(len(pkt.delivery_handlers))"]},
     modifies=_BUF + ["QuicSentPacket.is_ack_eliciting[*]", "QuicSentPacket.in_flight[*]", "QuicSentPacket.is_crypto_packet[*]", "QuicSentPacket.delivery_handlers[*]"],
     ensures=[
         "result == self._buffer",
@@ -361,6 +362,9 @@ R.contract(
         "pkt.in_flight == (old(pkt.in_flight) or in_flight_frame(frame_type))",
         "pkt.is_crypto_packet == (old(pkt.is_crypto_packet) or frame_type == 6)",
         "pkt.packet_number == old(pkt.packet_number) and pkt.packet_type == old(pkt.packet_type)",
+        # C01/C18 "again after loss": the delivery handler the caller names is registered on the packet (exactly one entry
+        # more), and no entry is registered when none is named
+        "len(pkt.delivery_handlers) == old(len(pkt.delivery_handlers)) + (1 if handler is not None else 0)",
     ],
 )
 
